@@ -101,6 +101,15 @@ func lintCheck(r *hx.Rng, n int) (fails []failure, colCases []string, count int)
 					txt, q, p := scalar()
 					put("      - " + txt)
 					vals = append(vals, filterVal{line, 9, q, key.isRef, p})
+					if r.Chance(1, 5) {
+						// the same entry once more (as it is, or in the other letter case): validated again
+						t2, p2 := txt, p
+						if r.Chance(1, 2) {
+							t2, p2 = strings.ToUpper(txt), strings.ToUpper(p)
+						}
+						put("      - " + t2)
+						vals = append(vals, filterVal{line, 9, q, key.isRef, p2})
+					}
 				}
 			}
 		}
